@@ -3,6 +3,12 @@
 import json, os
 
 CLAIMED = {
+    "C20": ("Coq proof on Checkpoint.v (the shared SaveBestEpoch callback keeps the first epoch attaining the best value over all executions; it agrees with the History post-processing for one execution) + end-to-end searches with the real tuners, callbacks and checkpoint files",
+            "C20_callback_keeps_first_best (for every finite curve, direction, number of executions: the last save is the first epoch attaining the best value in execution-major order), C20_selectors_agree (for one execution the kept epoch is the "
+            "epoch whose value and index are reported to the oracle), C20_first_best_unique; also over integers. PARTIAL by nature: that Keras save_weights/load_weights restore the arrays and that fit honours initial_epoch are observed, not proved: "
+            "the real RandomSearch/GridSearch/BayesianOptimization/Hyperband tuners run end to end with a hypermodel whose fit replays generated curves through the real callbacks on a real one-weight model, stamping the weight per (trial, execution, epoch); "
+            "every trial's checkpoint and get_best_models are loaded for real; a promoted Hyperband trial must start from its parent's kept stamp and train exactly [initial_epoch, epochs).",
+            "Trusted: Coq kernel/vm_compute; python harness; Keras checkpoint I/O and fit's epoch protocol (scripted fit follows it); finite curves only.", "DESIGN.md section 6 C20"),
     "C17": ("Coq proof on Sync.v (interleaving semantics of the synchronisation wrapper: invariant, mutual exclusion, re-entrancy, exception safety, no wedge) tied to the source by an AST translator regenerating Gen_sync.v on every run + line-level schedule sweep on real threads",
             "The fail-closed translator turns synchronized.wrapped_func, the lock-table helpers and the decorator lists of oracle.py / gridsearch.py / oracle_chief.py into an instruction list; C17_source_shape re-proves on every run that it has "
             "the shape the semantics is about (owner read creates nothing; atomic lock lookup; acquire before set-owner; call inside try; finally clears the owner and THEN releases) and C17_all_decorated that the five operations carry the decorator. "
